@@ -494,26 +494,107 @@ func c17Rotate(p *core.Program, r *core.Report) {
 		return
 	}
 	rn := recvName(fi)
-	ok := false
-	reopen := false
-	for i, s := range fi.Decl.Body.List {
-		if ifs, isIf := s.(*ast.IfStmt); isIf {
-			cs := strings.ReplaceAll(stripSpaces(types.ExprString(ifs.Cond)), rn+".", "")
-			if strings.Contains(cs, "lastFileRotation!=conf.rotationEnabled") && strings.Contains(cs, "lastDataUnit!=dateutil.GetDateUnitNow()") && strings.Contains(cs, "logfile==nil") && !strings.Contains(cs, "&&") {
-				body := stripSpaces(nodeStringFull(ifs.Body))
-				if strings.Contains(body, "logfile.Close()") && strings.Contains(body, "logfile=nil") && strings.Contains(body, "lastDataUnit=dateutil.GetDateUnitNow()") {
-					ok = true
+	info := fi.Pkg.TypesInfo
+	norm := func(e ast.Expr) string { return strings.ReplaceAll(stripSpaces(types.ExprString(e)), rn+".", "") }
+	isUnitCall := func(e ast.Expr) bool {
+		call, ok := ast.Unparen(e).(*ast.CallExpr)
+		if !ok {
+			return false
+		}
+		s := norm(call.Fun)
+		return strings.Contains(s, "DateUnit") || strings.Contains(s, "YYYYMMDD")
+	}
+	isField := func(e ast.Expr) bool {
+		sel, ok := ast.Unparen(e).(*ast.SelectorExpr)
+		if !ok {
+			return false
+		}
+		id, ok := ast.Unparen(sel.X).(*ast.Ident)
+		return ok && id.Name == rn
+	}
+	// path rule: every cycle looks at the date (or has already decided to reopen because the rotation
+	// option or the handle changed), closes and forgets the handle and records the new date unit when
+	// something changed, and always ends in openFile(); no early way out before the date is examined
+	ps, over := paths.Enumerate(fi.Decl.Body, paths.Config{Info: info,
+		Cond: func(c ast.Expr, v bool) *paths.Event {
+			if be, ok := ast.Unparen(c).(*ast.BinaryExpr); ok && (be.Op == token.NEQ || be.Op == token.EQL) {
+				changed := (be.Op == token.NEQ) == v
+				switch {
+				case (isField(be.X) && isUnitCall(be.Y)) || (isField(be.Y) && isUnitCall(be.X)):
+					return &paths.Event{Kind: "DATE", Arg: fmt.Sprint(changed), Pos: c.Pos()}
+				case strings.Contains(norm(c), "rotationEnabled") && (isField(be.X) || isField(be.Y)):
+					return &paths.Event{Kind: "ROT", Arg: fmt.Sprint(changed), Pos: c.Pos()}
+				case (norm(be.X) == "logfile" && norm(be.Y) == "nil") || (norm(be.Y) == "logfile" && norm(be.X) == "nil"):
+					return &paths.Event{Kind: "NOHANDLE", Arg: fmt.Sprint((be.Op == token.EQL) == v), Pos: c.Pos()}
 				}
-				for _, t := range fi.Decl.Body.List[i+1:] {
-					if strings.Contains(stripSpaces(nodeStringFull(t)), "openFile()") {
-						reopen = true
+			}
+			return &paths.Event{Kind: "COND", Arg: condKey(info, norm, c, v), Pos: c.Pos()}
+		},
+		Classify: func(m ast.Node) []paths.Event {
+			var out []paths.Event
+			if as, ok := m.(*ast.AssignStmt); ok && len(as.Lhs) == len(as.Rhs) {
+				for i, l := range as.Lhs {
+					switch {
+					case norm(l) == "logfile" && norm(as.Rhs[i]) == "nil":
+						out = append(out, paths.Event{Kind: "FORGET", Pos: as.Pos()})
+					case isField(l) && isUnitCall(as.Rhs[i]):
+						out = append(out, paths.Event{Kind: "SETUNIT", Pos: as.Pos()})
 					}
 				}
 			}
+			ast.Inspect(m, func(k ast.Node) bool {
+				if _, isLit := k.(*ast.FuncLit); isLit {
+					return false
+				}
+				if call, ok := k.(*ast.CallExpr); ok {
+					switch norm(call.Fun) {
+					case "logfile.Close":
+						out = append(out, paths.Event{Kind: "CLOSE", Pos: call.Pos()})
+					case "openFile":
+						out = append(out, paths.Event{Kind: "OPEN", Pos: call.Pos()})
+					}
+				}
+				return true
+			})
+			return out
+		}})
+	if over {
+		r.Undec("C17.rotate", c, p.Pos(fi.Decl.Pos()), "too many paths")
+		return
+	}
+	var probs []string
+	sawChange := false
+	for _, pa := range ps {
+		if pa.Has("PANIC") || pa.Has("CUT") {
+			continue
+		}
+		decided := pa.HasArg("ROT", "true") || pa.HasArg("NOHANDLE", "true")
+		if !pa.Has("DATE") && !decided {
+			probs = append(probs, "a cycle can end without comparing the recorded date unit with today's (an early way out): after midnight lines keep going to the old day's file: "+pa.String())
+			continue
+		}
+		changed := decided || pa.HasArg("DATE", "true")
+		if changed {
+			sawChange = true
+			oi := pa.Index("OPEN")
+			fi2, ui := pa.Index("FORGET"), pa.Index("SETUNIT")
+			if fi2 < 0 || (oi >= 0 && fi2 > oi) {
+				probs = append(probs, "on a change the old handle is not forgotten before openFile(): the old file stays in use")
+			}
+			if ui < 0 {
+				probs = append(probs, "on a change the new date unit is not recorded: the file is reopened on every cycle or never again")
+			}
+		} else if pa.Has("FORGET") {
+			probs = append(probs, "the handle is dropped although nothing changed")
+		}
+		if !pa.Has("OPEN") {
+			probs = append(probs, "a cycle ends without openFile(): after a change (or a failed open) no file is in use")
 		}
 	}
-	r.Check(ok && reopen, "C17.rotate", c, p.Pos(fi.Decl.Pos()), "closes on date/rotation/handle change and calls openFile() afterwards",
-		"process() does not close and reopen the log file when the date unit, the rotation flag or the handle changed")
+	if !sawChange {
+		probs = append(probs, "no path reacts to a changed date unit")
+	}
+	fileProbs(r, "C17.rotate", c, p.Pos(fi.Decl.Pos()), uniq(probs), "every cycle examines the date; on a change the handle is closed/forgotten, the unit recorded, and openFile() follows")
 	of := logMethod(p, "openFile")
 	if of != nil {
 		s := stripSpaces(nodeStringFull(of.Decl.Body))
